@@ -18,13 +18,10 @@ import (
 func init() {
 	fw.Register(&fw.Prop{
 		ID: "C12",
-		Rule: "inputs: (1) exhaustive table orphans 1–4 × widows 1–4 × paragraph length 1–8 × room 0–8 lines after a leading block; (2) exhaustive table of break-after × break-before value pairs (10 × 10) in four nesting variants at a natural page end; (3) exhaustive table of vertical padding/border arrangements (8 arrangements of a decorated box, paragraph or fixed-height block between two blocks × 4 border/padding splits × 22 page heights 40..124px in steps of 4, so that the page bottom falls on every 4px of the decorated block); (4) random flows of 2–10 items, up to ~25 blocks (fixed-height empty blocks, Ahem paragraphs of 1–9 one-word lines with explicit px line-height, one level of nesting; zero vertical margins; in 35% of the documents boxes, paragraphs and fixed-height blocks carry top and/or bottom padding and borders of 4–12px (box-decoration-break: slice; bottom ones on fixed-height blocks only in table 3); 3% of the documents on pages lower than a line, 4% on A4 pages) with break-before/after/inside, orphans, widows, page names, and 0–6 @page rules (:first/:left/:right/:blank/named/:nth(), author and user origin, !important) setting integer size, margins, padding, page counters and an @bottom-center counter box. " +
+		Rule: "inputs: (1) exhaustive table orphans 1–4 × widows 1–4 × paragraph length 1–8 × room 0–8 lines after a leading block; (2) exhaustive table of break-after × break-before value pairs (10 × 10) in four nesting variants at a natural page end; (3) exhaustive table of vertical padding/border arrangements (8 arrangements of a decorated box, paragraph or fixed-height block between two blocks × 4 border/padding splits × 22 page heights 40..124px in steps of 4, so that the page bottom falls on every 4px of the decorated block); (4) random flows of 2–10 items, up to ~25 blocks (fixed-height empty blocks, Ahem paragraphs of 1–9 one-word lines with explicit px line-height, one level of nesting; zero vertical margins; in 35% of the documents boxes, paragraphs and fixed-height blocks carry top and/or bottom padding and borders of 4–12px (box-decoration-break: slice; bottom ones on fixed-height blocks only in table 3); 3% of the documents on pages lower than a line, 4% on A4 pages) with break-before/after/inside, orphans, widows, page names, and 0–6 @page rules (:first/:left/:right/:blank/named/:nth(), author and user origin, !important) setting size, margins, padding, page counters and an @bottom-center counter box; in 30% of the random documents 70% of the @page margin / padding values are written as percentages (40%) or in pt, pc, mm, cm, in, Q, em, or auto for margins (30%) instead of px, and 30% of the sizes in pt / pc; (5) exhaustive table of the page-box margin / padding value syntax: each of the 8 longhands and the margin / padding shorthands with 1–4 values × the units px, pt, pc, mm, cm, in, Q, em, %, and a mixed form (auto margins, percentages next to lengths) × a portrait, a landscape and a square sheet (percentages of top/bottom refer to the sheet height, of left/right to its width). " +
 			"A case is non-trivial when the laid-out document has at least two pages and at least one page end (forced or unforced) was decided by the break monitor; distinct = distinct input.",
 		N: func(tier string) int {
-			if tier == "thorough" {
-				return nTables + 200000
-			}
-			return nTables + 10000
+			return nTables + nRandom(tier) + nUnit
 		},
 		Gen:   genCase,
 		Check: check,
@@ -65,12 +62,26 @@ func init() {
 				"pages_with_decorations":              3000 * m,
 				"decorated_doc_fragments_checked":     15000 * m,
 				"ends_bottom_decoration_does_not_fit": 90 * m,
+				// value syntax of the page-box margins / paddings / size: the table is complete; documents
+				// with some value not in px; geometry numbers compared that were resolved from a percentage,
+				// from a percentage on a top/bottom side of a non-square sheet (where the reference — sheet
+				// height, not width — matters), from another unit, from an auto margin; pages whose size was
+				// declared in pt / pc
+				"kind_unit-table":                               nUnit,
+				"docs_page_values_with_units":                   1000 * m,
+				"geometry_fields_from_percentage":               8000 * m,
+				"geometry_fields_vertical_percentage_nonsquare": 4000 * m,
+				"geometry_fields_from_other_units":              7000 * m,
+				"geometry_fields_from_auto_margin":              200 * m,
+				"pages_size_in_other_units":                     1300 * m,
 			}
 		},
 		Assumptions: []string{
 			"flows are restricted to zero vertical margins, no floats, tables, footnotes, columns or absolutely positioned boxes (fragmentation of those has no closed-form expectation); vertical padding and borders are integer px with box-decoration-break: slice (clone is not generated)",
 			"css-break-3 §4.2: no break point separates the top padding/border of a box from its first child or line, nor its last child or line from its bottom padding/border (auto heights leave no class C gap), so these decorations travel with the first / last unit of the box and count in what must fit",
 			"four patterns of /repo around bottom padding/border at a page end are open findings (first box of a page; fixed-height block; fragment made by findEarlierPageBreak; second layout in a space reduced for every child): they are recognised by narrow signatures and reported as known, only when nothing else is wrong with the document; bottom padding/border on fixed-height blocks is kept out of the random flows (table 3 only)",
+			"@page margin / padding percentages refer to the page sheet given by `size`: its width for left/right, its height for top/bottom (css-page-3 page-based percentages, CSS 2.1 §13.2.1); absolute units convert as 1in = 96px = 72pt = 6pc = 2.54cm = 25.4mm = 101.6Q; em in the page context is the initial font-size, 16px (no font property is declared in the generated @page rules); auto margins of the page box are 0 (its width and height are auto). ex, ch, rem, vw/vh, calc() and size keywords are not generated",
+			"open finding F-C12-page-bottom-float32-rounding: with a fractional page bottom a block that must be split on the page is sometimes moved whole to the next page (the float32 sum y + (pageBottom − y) rounds above pageBottom and overflowsPage has no effective fudge factor); recognised only when that float32 arithmetic, redone on the observed positions, does round above the page bottom, and reported as known",
 			"Ahem metrics: one 8-glyph word per line in a body of width 8em, explicit px line-height, so every line box is exactly line-height tall",
 			"where the specifications leave a choice (weight of :nth(); page name of a blank page; orphans counted per fragment or per box; which of two nested break-after sides wins; whether counter-reset:page suppresses the automatic increment) every reading is accepted",
 			"a forced side on break-before of the first block of the document (propagation to the root) is not generated",
@@ -440,6 +451,15 @@ func check(raw json.RawMessage) fw.Result {
 				knownPage[i] = true
 				continue
 			}
+			if v.sig == "early-break" || v.sig == "break-rule-ignored" {
+				if why := fl.float32BottomPattern(pages[i], obs[i], first[i], last[i], v.hi); why != "" {
+					// open finding F-C12-page-bottom-float32-rounding (see notes)
+					known.Fail("page-bottom-float32-rounding", sprintf("page %d: %s; %s", i+1, v.msg, why))
+					res.Count("known_pattern_page_ends", 1)
+					knownPage[i] = true
+					continue
+				}
+			}
 			res.Fail(v.sig, sprintf("page %d: %s", i+1, v.msg))
 			return res
 		}
@@ -702,6 +722,89 @@ func check(raw json.RawMessage) fw.Result {
 		res.Count("engine_gotext", 1)
 	}
 	return res
+}
+
+// float32BottomPattern recognises the open finding F-C12-page-bottom-float32-rounding on a page
+// that ended after unit b although more fitted.  /repo stretches the first fragment of a split block
+// to the bottom of the page (css-break-3 §5.1): height = pageBottom − y − (top padding/border) in
+// float32, and its parent then tests content y + height > pageBottom, a comparison whose fudge
+// factor (1+1e-9, PEP 485) is 1 in float32.  When the page bottom is not an integer and the sum
+// rounds above pageBottom the fragment is judged to overflow and the whole block goes to the next
+// page.  Recognised only when all of this holds: the page bottom is fractional; unit b+1 starts a
+// block (the outermost block starting there, or its first child) that would have been split on this
+// page (it ends after the last unit hi that fits before a forced break); and the float32 arithmetic
+// of blockContainerLayout / inFlowLayout, redone here on the observed position for one of the
+// places where the first layout may have cut the block (after unit b+1 … hi), does round above the
+// page bottom.
+func (f *flow) float32BottomPattern(p *bo.PageBox, op obsPage, s, b, hi int) string {
+	if b+1 >= len(f.units) || b < s || b-s >= len(op.units) {
+		return ""
+	}
+	bottom := float32(p.ContentBoxY()) + float32(p.Height.V())
+	if float64(bottom) == math.Trunc(float64(bottom)) {
+		return ""
+	}
+	lu := op.units[b-s]
+	y := float32(lu.y) + float32(lu.h) + float32(f.units[b].post) // border-box top of what follows unit b
+	// z: first unit of the block that is pushed.  It is unit b+1, or a later unit when every break
+	// point between unit b and unit z is forbidden by the rules (the block is pushed, the break in
+	// front of it is not allowed, and the search of an earlier break lands after unit b).
+	for z := b + 1; z <= hi; z++ {
+		if z > b+1 {
+			if f.conforms(z-1, 0, s, false) {
+				break
+			}
+			pu := f.units[z-1]
+			y = y + float32(pu.pre) + float32(pu.h) + float32(pu.post)
+		}
+		if why := f.float32BottomAt(z, y, bottom, hi); why != "" {
+			return why
+		}
+	}
+	return ""
+}
+
+// float32BottomAt: see float32BottomPattern; y is the border-box top of the block starting at unit z.
+func (f *flow) float32BottomAt(z int, y, bottom float32, hi int) string {
+	nu := f.units[z]
+	blk := &f.blocks[nu.blk]
+	if nu.line != 0 {
+		return ""
+	}
+	type cand struct {
+		it  *Item
+		y   float32 // border-box top
+		end int     // last unit
+	}
+	var cands []cand
+	top := y
+	if blk.parent != nil && blk.firstKid {
+		end := z
+		for k := nu.blk; k < len(f.blocks) && f.blocks[k].parent == blk.parent; k++ {
+			end = f.blocks[k].start + f.blocks[k].n - 1
+		}
+		cands = append(cands, cand{blk.parent, y, end})
+		y = y + float32(blk.parent.PadT) + float32(blk.parent.BorT) // content-box top of the box = top of its first child
+	}
+	cands = append(cands, cand{blk.it, y, blk.start + blk.n - 1})
+	for _, c := range cands {
+		padT, borT := float32(c.it.PadT), float32(c.it.BorT)
+		cby := c.y + padT + borT // ContentBoxY
+		inner := 0.0             // content height of the block up to unit k
+		for k := z; k <= hi && k < c.end; k++ {
+			inner += f.units[k].tot()
+			if k == z {
+				inner -= float64(c.y-top) + float64(padT+borT) // top decorations counted in pre that are not content of this block
+			}
+			old := (cby + float32(inner)) - cby // auto height of the first layout
+			mh := old + padT + borT             // MarginHeight (bottom decoration removed: slice)
+			h := bottom - c.y - (mh - old)
+			if h > old && cby+h > bottom {
+				return sprintf("known pattern: block %s would start at y=%v and be split on this page (first layout up to unit %d); its first fragment is stretched to the page bottom %v with a content height of %v (float32), content top %v + height = %v is above the page bottom by one rounding step, and the fragment is taken for an overflow", c.it.ID, c.y, k, bottom, h, cby, cby+h)
+			}
+		}
+	}
+	return ""
 }
 
 func prevEnd(units []obsUnit, k int, top float64) float64 {
